@@ -49,9 +49,11 @@ class C08(Prop):
     level_note = ("Trusted: Coq kernel + vm_compute; the harness (generator, literal emission); "
                   "integer-valued vectors stand for float arrays; equal-length vectors. The theorem is "
                   "about the model; the implementation is covered on the generated histories only. "
-                  "EquationSystem wrappers are exercised by the C05/C10 checks.")
+                  "One third of the histories go through the EquationSystem wrappers "
+                  "(set/get_variable_values, shift_time_step_values, shift_iterate_values) on a "
+                  "one-variable system.")
     technique = "Coq proof (window refinement by induction over histories) + vm_compute execution correspondence"
-    rule = ("random histories of set/add/get/shift on one (location,name) slot; 60% "
+    rule = ("random histories of set/add/get/shift on one (location,name) slot, through the pp.*_solution_values helpers (2/3) or the EquationSystem wrappers (1/3); 60% "
             "'disciplined' (writes at index 0, fixed depth), 40% arbitrary indices incl. "
             "negative, non-contiguous keys, changing depths; every array handed to or "
             "returned by the implementation is overwritten afterwards (aliasing probe); "
@@ -66,6 +68,7 @@ class C08(Prop):
         for _ in range(n):
             size = rng.randint(1, 3)
             loc = rng.choice(["ts", "it"])
+            via = rng.choice(["helpers", "helpers", "eqsys"])
             nops = rng.randint(1, maxops)
             ops = []
             vec = lambda: [rng.randint(-50, 50) for _ in range(size)]
@@ -81,7 +84,7 @@ class C08(Prop):
                         ops.append(["shift", d])
                     else:
                         ops.append(["get", rng.randint(0, d)])
-                yield {"size": size, "loc": loc, "ops": ops, "disciplined": d}
+                yield {"size": size, "loc": loc, "via": via, "ops": ops, "disciplined": d}
             else:
                 for _ in range(nops):
                     r = rng.random()
@@ -94,11 +97,23 @@ class C08(Prop):
                         ops.append(["shift", rng.choice([None, None, 0, 1, 2, 3, 4, 6, -1])])
                     else:
                         ops.append(["get", idx])
-                yield {"size": size, "loc": loc, "ops": ops, "disciplined": None}
+                yield {"size": size, "loc": loc, "via": via, "ops": ops, "disciplined": None}
+
+    def _eqsys(self, size):
+        g = pp.CartGrid([size])
+        g.compute_geometry()
+        mdg = pp.MixedDimensionalGrid()
+        mdg.add_subdomains([g])
+        eqs = pp.ad.EquationSystem(mdg)
+        eqs.create_variables("x", {"cells": 1}, subdomains=[g])
+        return eqs, mdg.subdomain_data(g)
 
     def run_impl(self, case):
         data = {}
         name = "x"
+        eqs = None
+        if case.get("via") == "eqsys":
+            eqs, data = self._eqsys(case["size"])
         kw = "time_step_index" if case["loc"] == "ts" else "iterate_index"
         location = pp.TIME_STEP_SOLUTIONS if case["loc"] == "ts" else pp.ITERATE_SOLUTIONS
         outs = []
@@ -107,18 +122,29 @@ class C08(Prop):
                 if o[0] in ("set", "add"):
                     arr = np.array(o[2], dtype=float)
                     try:
-                        pp.set_solution_values(name, arr, data, additive=(o[0] == "add"),
-                                               **{kw: o[1]})
+                        if eqs is not None:
+                            eqs.set_variable_values(arr, additive=(o[0] == "add"), **{kw: o[1]})
+                        else:
+                            pp.set_solution_values(name, arr, data, additive=(o[0] == "add"),
+                                                   **{kw: o[1]})
                     finally:
                         arr[:] = 977.0  # aliasing probe
                     outs.append(["done"])
                 elif o[0] == "get":
-                    v = pp.get_solution_values(name, data, **{kw: o[1]})
+                    if eqs is not None:
+                        v = eqs.get_variable_values(**{kw: o[1]})
+                    else:
+                        v = pp.get_solution_values(name, data, **{kw: o[1]})
                     outs.append(["val", [int(x) for x in v]])
                     assert all(float(int(x)) == x for x in v)
                     v[:] = -977.0  # aliasing probe
                 else:
-                    pp.shift_solution_values(name, data, location, max_index=o[1])
+                    if eqs is None:
+                        pp.shift_solution_values(name, data, location, max_index=o[1])
+                    elif case["loc"] == "ts":
+                        eqs.shift_time_step_values(max_index=o[1])
+                    else:
+                        eqs.shift_iterate_values(max_index=o[1])
                     outs.append(["done"])
             except KeyError:
                 outs.append(["err", "KeyErr"])
@@ -168,10 +194,13 @@ class C08(Prop):
         ops = clist(case["ops"], _op)
         outs = clist(res["outs"], _out)
         dump = coption(res["dump"], lambda l: clist(l, lambda kv: f"({kv[0]}%nat, {_vec(kv[1])})"))
-        return f"agree {ops} {outs} {dump}"
+        # create_variables pre-creates the (empty) per-name dictionaries
+        init = "(Some [])" if case.get("via") == "eqsys" else "None"
+        return f"agree_from {init} {ops} {outs} {dump}"
 
     def coq_diag(self, case, res):
-        return f"run vaddZ None {clist(case['ops'], _op)}"
+        init = "(Some [])" if case.get("via") == "eqsys" else "None"
+        return f"run vaddZ {init} {clist(case['ops'], _op)}"
 
     def nontrivial(self, case, res):
         ks = {o[0] for o in case["ops"]}
